@@ -17,6 +17,8 @@ package simnet
 
 import (
 	"errors"
+
+	"github.com/go-git/go-git/v6/verifsim/simfs"
 	"io"
 	"sync"
 	"syscall"
@@ -44,6 +46,8 @@ type Stats struct {
 type Stream struct {
 	Name string
 	cfg  Cfg
+	// Drv, when non-nil, makes every stream operation a scheduling point.
+	Drv Parker
 
 	wmu     sync.Mutex // serialises whole Write calls, like io.Pipe and net.Conn do
 	mu      sync.Mutex
@@ -69,20 +73,16 @@ func NewStream(name string, cfg Cfg) *Stream {
 	return s
 }
 
-func (s *Stream) nextChunk(rest int) int {
-	if len(s.cfg.Chunks) == 0 {
-		return rest
-	}
-	c := s.cfg.Chunks[s.ci%len(s.cfg.Chunks)]
-	s.ci++
-	if c <= 0 || c > rest {
-		return rest
-	}
-	return c
-}
-
 // DebugHook, when set, sees every Write and Read (debugging aid).
 var DebugHook func(stream, op string, p []byte)
+
+// Parker is the scheduler hook (sched.Driver implements it): when set on a
+// stream, every Read and every segment of a Write is a scheduling point that
+// is enabled only when it can proceed, so nothing ever blocks inside the
+// stream and the interleaving of the two ends is chosen by the driver.
+type Parker interface {
+	ParkUntil(actor string, class simfs.OpClass, detail string, enabled func() bool)
+}
 
 // Write implements io.Writer.
 func (s *Stream) Write(p []byte) (int, error) {
@@ -106,15 +106,26 @@ func (s *Stream) Write(p []byte) (int, error) {
 		if s.cut {
 			return n, &netErr{syscall.EPIPE}
 		}
-		if s.cfg.Cap > 0 && s.queued >= s.cfg.Cap {
+		// the size of the next segment is a function of the plan only (never of
+		// how much room happens to be free): planned chunk, capped by capacity
+		c := s.peekChunk(len(p) - n)
+		if s.cfg.Cap > 0 && c > s.cfg.Cap {
+			c = s.cfg.Cap
+		}
+		room := func() bool { return s.cfg.Cap <= 0 || s.queued == 0 || s.queued+c <= s.cfg.Cap || s.rclosed || s.cut || s.wclosed }
+		if s.Drv != nil {
+			s.mu.Unlock()
+			s.Drv.ParkUntil(s.Name, "net-write", s.Name, func() bool { s.mu.Lock(); defer s.mu.Unlock(); return room() })
+			s.mu.Lock()
+			if !room() || s.rclosed || s.cut || s.wclosed {
+				continue
+			}
+		} else if !room() {
 			s.St.Blocked++
 			s.cond.Wait()
 			continue
 		}
-		c := s.nextChunk(len(p) - n)
-		if s.cfg.Cap > 0 && c > s.cfg.Cap-s.queued {
-			c = s.cfg.Cap - s.queued
-		}
+		s.takeChunk()
 		if s.cfg.CutAt > 0 && s.written+int64(c) >= s.cfg.CutAt {
 			keep := int(s.cfg.CutAt - s.written)
 			if keep > 0 {
@@ -136,6 +147,23 @@ func (s *Stream) Write(p []byte) (int, error) {
 	return n, nil
 }
 
+func (s *Stream) peekChunk(rest int) int {
+	if len(s.cfg.Chunks) == 0 {
+		return rest
+	}
+	c := s.cfg.Chunks[s.ci%len(s.cfg.Chunks)]
+	if c <= 0 || c > rest {
+		return rest
+	}
+	return c
+}
+
+func (s *Stream) takeChunk() {
+	if len(s.cfg.Chunks) > 0 {
+		s.ci++
+	}
+}
+
 func (s *Stream) push(b []byte) {
 	s.segs = append(s.segs, append([]byte(nil), b...))
 	s.queued += len(b)
@@ -147,6 +175,13 @@ func (s *Stream) push(b []byte) {
 
 // Read implements io.Reader.
 func (s *Stream) Read(p []byte) (int, error) {
+	if s.Drv != nil && len(p) > 0 {
+		s.Drv.ParkUntil(s.Name, "net-read", s.Name, func() bool {
+			s.mu.Lock()
+			defer s.mu.Unlock()
+			return len(s.segs) > 0 || s.cut || s.wclosed || s.rclosed
+		})
+	}
 	s.mu.Lock()
 	defer s.mu.Unlock()
 	s.St.Reads++
